@@ -627,3 +627,44 @@ mod tests {
         assert_eq!(tree, deserialized_tree);
     }
 }
+
+/// Verification hook: one split search over all features from an arbitrary sample-weight state.
+/// Returns (feature, threshold, true child output, false child output) of the chosen split.
+#[cfg(feature = "verif")]
+pub fn verif_best_split_regressor<T: RealNumber, M: Matrix<T>>(
+    x: &M,
+    y: &M::RowVector,
+    samples: Vec<usize>,
+    parameters: DecisionTreeRegressorParameters,
+) -> Option<(usize, T, T, T)> {
+    let y_m = M::from_row_vector(y.clone());
+    let (_, num_attributes) = x.shape();
+    let mut n = 0;
+    let mut sum = T::zero();
+    for (i, s) in samples.iter().enumerate() {
+        n += *s;
+        sum += T::from(*s).unwrap() * y_m.get(0, i);
+    }
+    let mut order: Vec<Vec<usize>> = Vec::new();
+    for i in 0..num_attributes {
+        order.push(x.get_col_as_vec(i).quick_argsort_mut());
+    }
+    let mut tree = DecisionTreeRegressor {
+        nodes: vec![Node::new(0, sum / T::from(n).unwrap())],
+        parameters,
+        depth: 0,
+    };
+    let mut visitor = NodeVisitor::<T, M>::new(0, samples, &order, x, &y_m, 1);
+    let parent_gain = T::from(n).unwrap() * tree.nodes[0].output * tree.nodes[0].output;
+    for j in 0..num_attributes {
+        tree.find_best_split(&mut visitor, n, sum, parent_gain, j);
+    }
+    tree.nodes[0].split_value.map(|v| {
+        (
+            tree.nodes[0].split_feature,
+            v,
+            visitor.true_child_output,
+            visitor.false_child_output,
+        )
+    })
+}
